@@ -72,6 +72,25 @@ def r19_1(ctx):
             ok = pc["ret"].endswith("get_attribute(atom:charset).0)")
             ctx.ob("R19.1", "label-is-charset-value", ok, "the label reported is the charset attribute's value")
     ctx.floor("R19.1", "indicator-paths", n, 2)
+    # completeness: EVERY InHead path for a <meta> start tag that carries a declaration ends in the indicator - nothing else about
+    # the parser's state (template contents, open elements, ...) suppresses it
+    bad = None
+    k = 0
+    for pc in nfq.feasible(pcs):
+        g = pc["guards"]
+        if not any(v and k2 == "p1 matches InHead" for k2, v in g.items()) or _names_allowed(pc) != {"meta"}:
+            continue
+        charset = [v for k2, v in g.items() if re.fullmatch(r"p2\.0\.get_attribute\(atom:charset\) matches Some\(_\)(#\d+)?", k2)]
+        pragma = any(v and 'eq_ignore_ascii_case("content-type")' in k2 for k2, v in g.items()) and any(v and "extract_a_character_encoding_from_a_meta_element" in k2 and "matches Some(_)" in k2 for k2, v in g.items())
+        declares = (charset == [True]) or (charset == [False] and pragma)
+        if not charset and "EncodingIndicator(" not in str(pc["ret"]):
+            k += 1
+            bad = "a <meta> start tag leaves the InHead rule without its charset attribute having been looked at (%s): whether it declares an encoding is never asked" % [k2[-60:] for k2, v in g.items() if "self." in k2][:3]
+        if declares:
+            k += 1
+            if "EncodingIndicator(" not in str(pc["ret"]):
+                bad = "a <meta> that declares an encoding is processed in InHead without returning the indicator when %s" % [k2[-60:] for k2, v in g.items() if "self." in k2][:3]
+    ctx.ob("R19.1", "every-declaring-meta-in-head-yields-the-indicator", bad is None and k >= 2, bad or "%d declaring paths, all return EncodingIndicator" % k, "html5ever tree_builder rules InHead")
     if n > 2:
         ctx.ob("R19.1", "indicator-constructed-once-per-source", False, "%d paths construct an EncodingIndicator (reviewed: 2)" % n)
 
